@@ -494,10 +494,10 @@ func TestVerifC03Replay(t *testing.T) {
 	for i := 0; i < n; i++ {
 		ds := g.File(vfc03.FileOpts{MaxKeys: 6, Now: now, MultiDB: true, Reserved: true, Modules: true,
 			Huge: i == n/2 || (vfutil.Thorough() && i%500 == 7),
-			Many: map[int]string{n/3: "slpmany", 2*n/3: "hlpmany"}[i], Versions: []int{6, 7, 8, 9, 10, 11, 12, 13}})
+			Many: map[int]string{n/3: "slpmany", 2*n/3: "hlpmany"}[i], Tagged: i%8 == 3, Versions: []int{6, 7, 8, 9, 10, 11, 12, 13}})
 		c := randCfg(ds)
 		c.flt = randFilter(ds)
-		if r.Chance(1, 4) {
+		if r.Chance(1, 4) || i%8 == 3 {
 			// ReplaceHashTag, when the rewritten keys stay distinct per target DB
 			c.rht = true
 			seen := map[string]bool{}
